@@ -1,7 +1,7 @@
 ---------------------------- MODULE Mon_C17 ----------------------------
 (* Property monitor for C17 -- "Event notifications reach exactly the current subscribers,
    correctly addressed".
-     in  eg_create | eg_sub ep | eg_unsub ep | eg_set ev val | eg_notify evs | eg_badsub kind
+     in  eg_create | eg_sub ep | eg_unsub ep | eg_set ev val | eg_replace vals | eg_notify evs | eg_badsub kind
      out ntx dst sid ev val [hdr: svc mid iv mt]   one notification message left the transport
      out nak                                       a subscription was refused (NakSubscription)
      idle, adv
@@ -17,6 +17,7 @@ Put(f, k, v) == [x \in DOMAIN f \cup {k} |-> IF x = k THEN v ELSE f[x]]
 
 MonInit(cfg) ==
   [ cfg |-> cfg, subs |-> {}, values |-> cfg.values0,
+    events |-> cfg.events,    \* the keys of `values`, in order (the attribute may be replaced as a whole: eg_replace)
     nxt  |-> <<>>,            \* dst -> next session id
     pend |-> <<>>,            \* [dst, ev, vals (acceptable values), must]
     rounds |-> <<>>,          \* explicit rounds requested in this tick (late subscribers of the tick may be included)
@@ -27,7 +28,7 @@ MonInit(cfg) ==
     nakOwed |-> 0,
     bad |-> "", at |-> 0, n |-> 0 ]
 
-Events(m) == m.cfg.events
+Events(m) == m.events
 Expect(m, ep, evs, must) ==
   [m EXCEPT !.pend = @ \o [i \in DOMAIN evs |-> [dst |-> ep, ev |-> evs[i], vals |-> {m.values[evs[i]]}, must |-> must]]]
 RECURSIVE ExpectAll(_, _, _, _)
@@ -49,6 +50,14 @@ Unsub(m, ep) ==
             !.pend = [i \in DOMAIN @ |-> IF @[i].dst = ep THEN [@[i] EXCEPT !.must = FALSE] ELSE @[i]]]
 SetVal(m, ev, v) ==
   [m EXCEPT !.values[ev] = v, !.pend = [i \in DOMAIN @ |-> IF @[i].ev = ev THEN [@[i] EXCEPT !.vals = @ \cup {v}] ELSE @[i]]]
+\* the application replaces the whole `values` mapping (vals: <<event, value>> pairs in the order of the new mapping): from now on
+\* initial notifications and cyclic rounds carry exactly the new events.  (The drivers do this at the beginning of a tick of its own;
+\* should anything still be pending, both readings are accepted.)
+Replace(m, vals) ==
+  LET evs == [i \in DOMAIN vals |-> vals[i][1]]
+      f   == [ev \in {vals[i][1] : i \in DOMAIN vals} |-> vals[CHOOSE i \in DOMAIN vals : vals[i][1] = ev][2]]
+      Loosen(p) == [p EXCEPT !.must = FALSE, !.vals = @ \cup (IF p.ev \in DOMAIN f THEN {f[p.ev]} ELSE {})]
+  IN [m EXCEPT !.events = evs, !.values = f, !.pend = [i \in DOMAIN @ |-> Loosen(@[i])]]
 Notify(m, evs) ==
   IF m.subs = {} THEN m
   ELSE [ExpectAll(m, m.subs, evs, TRUE) EXCEPT !.rounds = Append(@, evs)]
@@ -76,7 +85,8 @@ Ntx(m, e) ==
       C  == {i \in DOMAIN m.pend : m.pend[i].dst = e.dst /\ m.pend[i].ev = e.ev}
       CM == {i \in C : m.pend[i].must}       \* owed ones are served before optional ones
       j  == IF CM # {} THEN CHOOSE i \in CM : \A x \in CM : i <= x ELSE CHOOSE i \in C : \A x \in C : i <= x
-  IN IF e.sid = 0 THEN Fail(m1, "session_id_zero")
+  IN IF e.ev \notin DOMAIN m.values THEN Fail(m1, "notification_for_an_event_that_is_not_in_values")
+     ELSE IF e.sid = 0 THEN Fail(m1, "session_id_zero")
      ELSE IF e.sid # want THEN Fail(m1, "session_id_not_consecutive")
      ELSE IF e.svc # m.cfg.svc \/ e.mid # 32768 + e.ev \/ e.iv # m.cfg.major \/ e.mt # 2 THEN Fail(m1, "notification_header_wrong")
      ELSE IF C = {} /\ m.cycDue THEN CycNtx(m1, e)
@@ -109,6 +119,7 @@ MonStep(m0, e) ==
     [] e.k = "in" /\ e.op = "eg_sub"    -> Sub(m, e.ep)
     [] e.k = "in" /\ e.op = "eg_unsub"  -> Unsub(m, e.ep)
     [] e.k = "in" /\ e.op = "eg_set"    -> SetVal(m, e.ev, e.val)
+    [] e.k = "in" /\ e.op = "eg_replace" -> Replace(m, e.vals)
     [] e.k = "in" /\ e.op = "eg_notify" -> Notify(m, e.evs)
     [] e.k = "in" /\ e.op = "eg_badsub" -> [m EXCEPT !.nakOwed = @ + 1]
     [] e.k = "in" /\ e.op = "burn" ->      \* n session ids of this destination were consumed unobserved
